@@ -8,6 +8,7 @@ TITLE = "trust-anchor policies bind the calendar root to the anchor"
 
 def run(prog, chk):
     extended_chain_table(prog, chk)
+    raw_signature_table(prog, chk)
     chk.explanation = (
         "R5/R7 over CALENDAR_BASED, KEY_BASED, PUBLICATIONS_FILE_BASED, USER_PUBLICATION_BASED and GENERAL: every evaluation path "
         "ending OK satisfies the internal certificate AND the anchor certificate of the policy (written from the statement: "
@@ -68,3 +69,52 @@ def extended_chain_table(prog, chk):
         chk.ob("C04.extchain", inst, ok, "expected %s; source: status %s, chain handed out %s" % (
             "the extender's chain" if temp == "chain received" else "an error and no chain", hex(q.ret) if isinstance(q.ret, int) else q.ret, out),
             loc=fn.loc(), fn=fn, nontrivial=(temp != "chain received"))
+
+
+def raw_signature_table(prog, chk):
+    """KSI_PKITruststore_verifyRawSignature (behind KEY-02): KSI_OK exactly when the digest is known, the public key is the
+    certificate's, every OpenSSL step succeeds and EVP_VerifyFinal returns 1 - 0 is 'bad signature', a negative value an error; the
+    octets verified are the caller's (data, length) and the signature the caller's (signature, length).  Decision table over the
+    outcomes of the OpenSSL calls."""
+    import itertools
+    from ksirules.interp import TOP, Interp, Ptr, succeed_model
+    from ksirules.model import AnalysisBroken
+    chk.rule("C04.rawsig", "raw PKI signature: OK only for EVP_VerifyFinal == 1 over the caller's data with the certificate's key (decision table)", floor=10)
+    fn = prog.fn("KSI_PKITruststore_verifyRawSignature", "pkitruststore_openssl.c")
+    cp, dp, dlp, op, sp, slp, certp = [p["n"] for p in fn.params]
+    rows = [dict(final=1), dict(final=0), dict(final=-1), dict(update=0), dict(init=0), dict(key=0), dict(md=0), dict(obj=0), dict(alg=-1), dict(mdctx=0), dict(final=1, siglen=0xffffffff)]
+    for row in rows:
+        r = dict(final=1, update=1, init=1, key=1, md=1, obj=1, alg=1, mdctx=1, siglen=256)
+        r.update(row)
+        seen = {}
+        ov = {"KSI_EVP_MD_CTX_create": lambda I, p, n, a: Ptr("MDCTX") if r["mdctx"] else 0, "EVP_MD_CTX_new": lambda I, p, n, a: Ptr("MDCTX") if r["mdctx"] else 0,
+              "EVP_MD_CTX_create": lambda I, p, n, a: Ptr("MDCTX") if r["mdctx"] else 0,
+              "EVP_MD_CTX_init": lambda I, p, n, a: 1, "EVP_MD_CTX_reset": lambda I, p, n, a: 1,
+              "OBJ_txt2obj": lambda I, p, n, a: (seen.__setitem__("oid", a[0]), Ptr("ALGOBJ") if r["obj"] else 0)[1],
+              "EVP_get_digestbyobj": lambda I, p, n, a: Ptr("MD") if r["md"] and a[0] == Ptr("ALGOBJ") else 0,
+              "EVP_get_digestbyname": lambda I, p, n, a: Ptr("MD") if r["md"] else 0, "OBJ_nid2sn": lambda I, p, n, a: Ptr("sn"), "OBJ_obj2nid": lambda I, p, n, a: 672,
+              "KSI_MD2hashAlg": lambda I, p, n, a: r["alg"],
+              "X509_get_pubkey": lambda I, p, n, a: (seen.__setitem__("keyfrom", a[0]), Ptr("PUBKEY") if r["key"] else 0)[1],
+              "EVP_DigestInit": lambda I, p, n, a: (seen.__setitem__("init", tuple(a[:2])), r["init"])[1], "EVP_DigestInit_ex": lambda I, p, n, a: (seen.__setitem__("init", tuple(a[:2])), r["init"])[1],
+              "EVP_DigestUpdate": lambda I, p, n, a: (seen.__setitem__("update", tuple(a[1:3])), r["update"])[1],
+              "EVP_VerifyFinal": lambda I, p, n, a: (seen.__setitem__("final", tuple(a[1:4])), r["final"])[1],
+              "EVP_VerifyFinal_ex": lambda I, p, n, a: (seen.__setitem__("final", tuple(a[1:4])), r["final"])[1],
+              "KSI_EVP_MD_CTX_cleanup": lambda I, p, n, a: TOP, "KSI_EVP_MD_CTX_destroy": lambda I, p, n, a: TOP, "EVP_MD_CTX_free": lambda I, p, n, a: TOP,
+              "ASN1_OBJECT_free": lambda I, p, n, a: TOP, "EVP_PKEY_free": lambda I, p, n, a: TOP}
+        inputs = {cp: Ptr("ctx"), dp: Ptr("DATA"), dlp: 77, op: Ptr("OID"), sp: Ptr("SIGBYTES"), slp: r["siglen"], certp: Ptr("CERT"), "CERT->x509": Ptr("X509"), "CERT->ctx": Ptr("ctx")}
+        I = Interp(fn, inputs=inputs, call_model=succeed_model(prog, ov), on_unknown="stop", prog=prog)
+        paths = I.run()
+        chk.paths += len(paths)
+        inst = "rawSignature[%s]" % (", ".join("%s=%s" % kv for kv in sorted(row.items())))
+        if len(paths) != 1 or paths[0].undetermined or paths[0].ret is TOP:
+            raise AnalysisBroken("KSI_PKITruststore_verifyRawSignature: evaluation not determined for %s: %s" % (inst, [q.undetermined[:1] for q in paths]))
+        q = paths[0]
+        all_ok = all(r[k] == 1 for k in ("final", "update", "init", "key", "md", "obj", "mdctx")) and r["alg"] >= 0 and r["siglen"] < 0xffffffff
+        if all_ok:
+            ok = q.ret == 0 and seen.get("update") == (Ptr("DATA"), 77) and seen.get("final") == (Ptr("SIGBYTES"), r["siglen"], Ptr("PUBKEY")) and \
+                seen.get("keyfrom") == Ptr("X509") and seen.get("oid") == Ptr("OID") and seen.get("init", (0, 0))[1] == Ptr("MD")
+            what = "expected KSI_OK after verifying (data, 77) against (signature, %d) with the certificate's key and the digest named by the OID; source: status %s, %s" % (r["siglen"], q.ret, seen)
+        else:
+            ok = q.ret not in (0, TOP)
+            what = "expected an error; source: status %s (%s)" % (hex(q.ret) if isinstance(q.ret, int) else q.ret, seen.get("final"))
+        chk.ob("C04.rawsig", inst, ok, what, loc=fn.loc(), fn=fn, nontrivial=not all_ok)
